@@ -317,15 +317,16 @@ def vt100Left (m : List Byte) (arg : BitVec 32) : Option (List Byte × Nat) :=
 
   The output of a printer is now also modelled as the stream the characters are
   pushed onto: `out` holds the characters handed to `debug_putchar` so far, the
-  most recent first (`emit` pushes a string).  The loops are tail calls, so the
-  driver runs the 65535-byte cases without deep recursion. -/
+  most recent first (`emit` pushes a string).  The loops are tail calls and the
+  memory they walk is an `Array` (constant-time `mem[i]?`; the entry points take
+  the usual byte list and convert it), so the driver runs the 65535-byte cases. -/
 
 /-- `debug_putchar` of every character of `s`, in order; `out` is newest-first -/
 def emit (out s : List Byte) : List Byte := s.reverse ++ out
 
 /-- `uint8_t *p = arg + n; while (n--) debug_printhex_uint8(*--p);` — `p` is the offset of
     the pointer in `mem`; a load outside `mem` is a fault -/
-def hexNLoop (mem : List Byte) : Nat → Nat → List Byte → Option (List Byte)
+def hexNLoop (mem : Array Byte) : Nat → Nat → List Byte → Option (List Byte)
   | 0, _, out => some out
   | n + 1, p, out =>
     if p = 0 then none
@@ -335,7 +336,7 @@ def hexNLoop (mem : List Byte) : Nat → Nat → List Byte → Option (List Byte
 
 /-- `void debug_printhex_n(uint8_t *arg, int n)` for `n ≥ 0` (every caller passes a `sizeof`) -/
 def printhexN (mem : List Byte) (arg n : Nat) : Option (List Byte) :=
-  (hexNLoop mem n (arg + n) []).map List.reverse
+  (hexNLoop mem.toArray n (arg + n) []).map List.reverse
 
 /-! the typed entry points: `debug_printhex_n((uint8_t *)&arg, sizeof(arg))` on the object
     representation of the argument (little endian), `debug_printhex_uint8(arg)` for the chars -/
@@ -345,7 +346,7 @@ def printhexInt (a : BitVec 32) : Option (List Byte) := printhexN (bytesLE a 4) 
 def printhexLong (a : BitVec 64) : Option (List Byte) := printhexN (bytesLE a 8) 0 8
 
 /-- `while (size--) f(*_ptr++);` (debug_writehex / debug_writebin) -/
-def writeFwdLoop (f : Byte → List Byte) (mem : List Byte) : Nat → Nat → List Byte → Option (List Byte)
+def writeFwdLoop (f : Byte → List Byte) (mem : Array Byte) : Nat → Nat → List Byte → Option (List Byte)
   | 0, _, out => some out
   | n + 1, p, out =>
     match mem[p]? with
@@ -353,7 +354,7 @@ def writeFwdLoop (f : Byte → List Byte) (mem : List Byte) : Nat → Nat → Li
     | some b => writeFwdLoop f mem n (p + 1) (emit out (f b))
 
 /-- `_ptr = ptr + size; while (size--) f(*--_ptr);` (debug_writehex_reversed / debug_writebin_reversed) -/
-def writeRevLoop (f : Byte → List Byte) (mem : List Byte) : Nat → Nat → List Byte → Option (List Byte)
+def writeRevLoop (f : Byte → List Byte) (mem : Array Byte) : Nat → Nat → List Byte → Option (List Byte)
   | 0, _, out => some out
   | n + 1, p, out =>
     if p = 0 then none
@@ -363,13 +364,13 @@ def writeRevLoop (f : Byte → List Byte) (mem : List Byte) : Nat → Nat → Li
 
 /-- `void debug_writehex(const void *ptr, uint16_t size)`; `ptr` = `mem + p` -/
 def writehex (mem : List Byte) (p : Nat) (size : BitVec 16) : Option (List Byte) :=
-  (writeFwdLoop printhexU8 mem size.toNat p []).map List.reverse
+  (writeFwdLoop printhexU8 mem.toArray size.toNat p []).map List.reverse
 def writebin (mem : List Byte) (p : Nat) (size : BitVec 16) : Option (List Byte) :=
-  (writeFwdLoop printbinU8 mem size.toNat p []).map List.reverse
+  (writeFwdLoop printbinU8 mem.toArray size.toNat p []).map List.reverse
 def writehexReversed (mem : List Byte) (p : Nat) (size : BitVec 16) : Option (List Byte) :=
-  (writeRevLoop printhexU8 mem size.toNat (p + size.toNat) []).map List.reverse
+  (writeRevLoop printhexU8 mem.toArray size.toNat (p + size.toNat) []).map List.reverse
 def writebinReversed (mem : List Byte) (p : Nat) (size : BitVec 16) : Option (List Byte) :=
-  (writeRevLoop printbinU8 mem size.toNat (p + size.toNat) []).map List.reverse
+  (writeRevLoop printbinU8 mem.toArray size.toNat (p + size.toNat) []).map List.reverse
 
 /-- `void debug_printhex_ptr(const void *v) { debug_writehex_reversed(&v, sizeof(uintptr_t)); }`
     (LP64: 8 bytes, the object representation of the pointer) -/
@@ -392,7 +393,7 @@ def tolowerI (c : Int) : Int := if isupperI c then c + (97 - 65) else c
 /-- the ASCII column of one row of debug_print_dump:
     `for (j = i - 7; j <= i; j++) if (j >= len) ' ' else if (igris_isprint(mem[j])) mem[j] else '.'`
     (`cnt` = how many `j` are left) -/
-def dumpAscii (mem : List Byte) (len : Nat) : Nat → Nat → List Byte → Option (List Byte)
+def dumpAscii (mem : Array Byte) (len : Nat) : Nat → Nat → List Byte → Option (List Byte)
   | 0, _, out => some out
   | cnt + 1, j, out =>
     if j ≥ len then dumpAscii mem len cnt (j + 1) (emit out [0x20#8])
@@ -401,7 +402,7 @@ def dumpAscii (mem : List Byte) (len : Nat) : Nat → Nat → List Byte → Opti
       | some b => dumpAscii mem len cnt (j + 1) (emit out [if isprintI b.toInt then b else 0x2E#8])
 
 /-- the body of `for (unsigned i = 0; i < len + pad; i++)`, `left` = iterations left -/
-def dumpLoop (addr : BitVec 64) (mem : List Byte) (len : Nat) : Nat → Nat → List Byte → Option (List Byte)
+def dumpLoop (addr : BitVec 64) (mem : Array Byte) (len : Nat) : Nat → Nat → List Byte → Option (List Byte)
   | 0, _, out => some out
   | left + 1, i, out =>
     -- if (i % 8 == 0) { debug_write("0x", 2); debug_printhex_ptr(i + (char *)mem); debug_putchar(':'); }
@@ -420,7 +421,7 @@ def dumpLoop (addr : BitVec 64) (mem : List Byte) (len : Nat) : Nat → Nat → 
     `len + ((len % 8) ? (8 - len % 8) : 0)` is computed in `int`: at most 65542, no wrap. -/
 def printDump (addr : BitVec 64) (mem : List Byte) (len : BitVec 16) : Option (List Byte) :=
   let n := len.toNat
-  (dumpLoop addr mem n (n + (if n % 8 ≠ 0 then 8 - n % 8 else 0)) 0 []).map List.reverse
+  (dumpLoop addr mem.toArray n (n + (if n % 8 ≠ 0 then 8 - n % 8 else 0)) 0 []).map List.reverse
 
 /-! ### the decimal entry points at their C types (dprint_func_impl.c:389-447):
     every signed one converts to `long long` (sign extension), every unsigned one to
